@@ -8,3 +8,47 @@ package validator
 //@ maprange-unordered (validator.MaxBlocks).Visit 1 diagnostics are an unordered collection
 //@ maprange-unordered (validator.MinBlocks).Visit 1 diagnostics are an unordered collection
 //@ maprange-unordered (validator.MissingRequiredAttribute).Visit 1 diagnostics are an unordered collection
+
+// ---- C15: each stock validator reports exactly the violation it is named after, with the offending
+// ---- item as subject. One clause of the property per validator.
+//@ spec attrOf(n hclsyntax.Node) *hclsyntax.Attribute = as(n, "*hclsyntax.Attribute")
+//@ spec blockOf(n hclsyntax.Node) *hclsyntax.Block = as(n, "*hclsyntax.Block")
+//@ spec bodyOf(n hclsyntax.Node) *hclsyntax.Body = as(n, "*hclsyntax.Body")
+//@ spec isAttr(n hclsyntax.Node) bool = typeis(n, "*hclsyntax.Attribute")
+//@ spec isBlock(n hclsyntax.Node) bool = typeis(n, "*hclsyntax.Block")
+//@ spec isBody(n hclsyntax.Node) bool = typeis(n, "*hclsyntax.Body")
+//@ contract (validator.UnexpectedAttribute).Visit (v, ctx, node, nodeSchema) (ctx2, diags)
+//@   ensures [C15] len(diags) == ite(!schemacontext.HasUnknownSchema(ctx) && isAttr(node) && nodeSchema == nil, 1, 0)
+//@   ensures [C15] implies(len(diags) == 1, diags[0].Severity == hcl.DiagError && *diags[0].Subject == attrOf(node).SrcRange)
+//@ contract (validator.UnexpectedBlock).Visit (v, ctx, node, nodeSchema) (ctx2, diags)
+//@   ensures [C15] len(diags) == ite(!schemacontext.HasUnknownSchema(ctx) && isBlock(node) && nodeSchema == nil, 1, 0)
+//@   ensures [C15] implies(len(diags) == 1, diags[0].Severity == hcl.DiagError && *diags[0].Subject == blockOf(node).TypeRange)
+//@ contract (validator.DeprecatedAttribute).Visit (v, ctx, node, nodeSchema) (ctx2, diags)
+//@   requires implies(isAttr(node) && nodeSchema != nil, typeis(nodeSchema, "*schema.AttributeSchema") && as(nodeSchema, "*schema.AttributeSchema") != nil)
+//@   ensures [C15] len(diags) == ite(isAttr(node) && nodeSchema != nil && as(nodeSchema, "*schema.AttributeSchema").IsDeprecated, 1, 0)
+//@   ensures [C15] implies(len(diags) == 1, diags[0].Severity == hcl.DiagWarning && *diags[0].Subject == attrOf(node).SrcRange)
+//@ contract (validator.DeprecatedBlock).Visit (v, ctx, node, nodeSchema) (ctx2, diags)
+//@   requires implies(isBlock(node) && nodeSchema != nil, typeis(nodeSchema, "*schema.BlockSchema") && as(nodeSchema, "*schema.BlockSchema") != nil)
+//@   ensures [C15] len(diags) == ite(isBlock(node) && nodeSchema != nil && as(nodeSchema, "*schema.BlockSchema").IsDeprecated, 1, 0)
+//@   ensures [C15] implies(len(diags) == 1, diags[0].Severity == hcl.DiagWarning && *diags[0].Subject == blockOf(node).TypeRange)
+//@ contract (validator.BlockLabelsLength).Visit (v, ctx, node, nodeSchema) (ctx2, diags)
+//@   requires implies(isBlock(node) && nodeSchema != nil, typeis(nodeSchema, "*schema.BlockSchema") && as(nodeSchema, "*schema.BlockSchema") != nil)
+//@   ensures [C15] implies(!(isBlock(node) && nodeSchema != nil), len(diags) == 0)
+//@   ensures [C15] implies(isBlock(node) && nodeSchema != nil, len(diags) == ite(len(blockOf(node).Labels) > len(as(nodeSchema, "*schema.BlockSchema").Labels), len(blockOf(node).Labels) - len(as(nodeSchema, "*schema.BlockSchema").Labels), 0) + ite(len(as(nodeSchema, "*schema.BlockSchema").Labels) > len(blockOf(node).Labels), 1, 0))
+//@   loop 1 invariant [C15] len(diags) == ite(rangeindex + 1 > validLabelNum, rangeindex + 1 - validLabelNum, 0)
+//@   loop 1 iter [C15] implies(i >= validLabelNum, len(diags) == old(len(diags)) + 1 && diags[len(diags)-1].Severity == hcl.DiagError && *diags[len(diags)-1].Subject == block.LabelRanges[i])
+//@ contract (validator.MissingRequiredAttribute).Visit (v, ctx, node, nodeSchema) (ctx2, diags)
+//@   requires implies(isBody(node) && nodeSchema != nil, typeis(nodeSchema, "*schema.BodySchema") && as(nodeSchema, "*schema.BodySchema") != nil)
+//@   ensures [C15] implies(!(isBody(node) && nodeSchema != nil), len(diags) == 0)
+//@   loop 1 iter [C15] len(diags) == old(len(diags)) + ite(attr.IsRequired && !haskey(body.Attributes, name), 1, 0)
+//@   loop 1 iter [C15] implies(len(diags) > old(len(diags)), diags[len(diags)-1].Severity == hcl.DiagError && *diags[len(diags)-1].Subject == body.SrcRange)
+//@ contract (validator.MaxBlocks).Visit (v, ctx, node, nodeSchema) (ctx2, diags)
+//@   requires implies(isBody(node) && nodeSchema != nil, typeis(nodeSchema, "*schema.BodySchema") && as(nodeSchema, "*schema.BodySchema") != nil)
+//@   ensures [C15] implies(!(isBody(node) && nodeSchema != nil), len(diags) == 0)
+//@   loop 1 iter [C15] len(diags) == old(len(diags)) + ite(blockSchema.MaxItems != 0 && haskey(schemacontext.FoundBlocks(ctx), name) && schemacontext.FoundBlocks(ctx)[name] > blockSchema.MaxItems, 1, 0)
+//@   loop 1 iter [C15] implies(len(diags) > old(len(diags)), diags[len(diags)-1].Severity == hcl.DiagError && *diags[len(diags)-1].Subject == node.Range())
+//@ contract (validator.MinBlocks).Visit (v, ctx, node, nodeSchema) (ctx2, diags)
+//@   requires implies(isBody(node) && nodeSchema != nil, typeis(nodeSchema, "*schema.BodySchema") && as(nodeSchema, "*schema.BodySchema") != nil)
+//@   ensures [C15] implies(!(isBody(node) && nodeSchema != nil), len(diags) == 0)
+//@   loop 1 iter [C15] len(diags) == old(len(diags)) + ite(blockSchema.MinItems != 0 && (!haskey(schemacontext.FoundBlocks(ctx), name) || schemacontext.FoundBlocks(ctx)[name] < blockSchema.MinItems) && !(bodySchema.Extensions != nil && bodySchema.Extensions.DynamicBlocks && haskey(schemacontext.DynamicBlocks(ctx), name) && schemacontext.DynamicBlocks(ctx)[name] > 0), 1, 0)
+//@   loop 1 iter [C15] implies(len(diags) > old(len(diags)), diags[len(diags)-1].Severity == hcl.DiagError && *diags[len(diags)-1].Subject == node.Range())
